@@ -219,7 +219,7 @@ def run_residue(payload):
     n = payload.get("n", N_ITER)
     marks = []
     e.CLOCK.reset("poll")
-    ctx = e.Context(time_limit=400, memory_limit=payload.get("ml"))
+    ctx = e.Context(time_limit=max(400, 2 * n), memory_limit=payload.get("ml"))
     ctx._globals["__out"] = lambda *a: e.UNDEFINED
     ctx._globals["NN"] = n
 
